@@ -11,6 +11,9 @@
  *     F<k> V<k> C<k>   fork / vfork (CLONE_VM|CLONE_VFORK, own stack) / thread running task k
  *     W                wait for every task this task created (wait4 / futex on the cleared tid)
  *     S                queue SIGUSR1 to itself; result = number of times the handler ran
+ *     Z                execve of this same image: the new image carries on with the ops after Z of the
+ *                      same task (argv[2] = "<task>:<next op>") and logs the Z line itself, i.e. only when
+ *                      the exec took effect and the new image runs
  *     K                a call the filter kills (getpriority)
  *     P                setsid() (the task leaves the process group the tracer waits on)
  *     X<code>          exit_group(code)   (implicit X0 at the end; a thread ends with exit(0))
@@ -39,6 +42,7 @@ typedef long i64;
 #define SYS_getpid 39
 #define SYS_clone 56
 #define SYS_fork 57
+#define SYS_execve 59
 #define SYS_exit 60
 #define SYS_wait4 61
 #define SYS_kill 62
@@ -193,7 +197,7 @@ static int parse(const char *s)
 			o->raw = s;
 			while (*s && *s != ',' && *s != '/') s++;
 			break;
-		case 'W': case 'S': case 'K': case 'P':
+		case 'W': case 'S': case 'K': case 'P': case 'Z':
 			break;
 		default:
 			return -1;
@@ -246,7 +250,8 @@ static long hostile_call(const char *s)
 }
 
 /* ---------------------------------------------------------------- interpreter */
-struct targ { int task; int thread; };
+struct targ { int task; int thread; int start; };
+static char **g_argv;
 static struct targ targs[MAXTASK];
 static int ctid[MAXTASK];          /* CLONE_CHILD_CLEARTID words for threads */
 
@@ -255,6 +260,7 @@ static long run_task(void *p);
 static long spawn(int kind, int k)
 {
 	targs[k].task = k;
+	targs[k].start = 0;
 	targs[k].thread = kind == 'C';
 	void *top = stacks[k] + sizeof stacks[k];
 	long r;
@@ -281,8 +287,11 @@ static long run_task(void *p)
 	int me = ta->task;
 	struct task *tk = &tasks[me];
 	int kids[MAXTASK], kkind[MAXTASK], nk = 0;
-	logline('B', me, 0, 0, sys3(SYS_gettid, 0, 0, 0), 0);
-	for (int i = 0; i < tk->nops; i++) {
+	if (ta->start == 0)
+		logline('B', me, 0, 0, sys3(SYS_gettid, 0, 0, 0), 0);
+	else
+		logline('R', me, ta->start - 1, 'Z', 0, 1);   /* the exec'ed image is running */
+	for (int i = ta->start; i < tk->nops; i++) {
 		struct op *o = &tk->ops[i];
 		long r = 0;
 		switch (o->kind) {
@@ -318,6 +327,13 @@ static long run_task(void *p)
 			if (r == 0) r = cnt;
 			break; }
 		case 'K': r = sys3(SYS_getpriority, 0, 0, 0); break;
+		case 'Z': {
+			char res[24], *q = put_num(res, me);
+			*q++ = ':'; q = put_num(q, i + 1); *q = 0;
+			char *nargv[4] = { g_argv[0], g_argv[1], res, 0 };
+			char *nenv[1] = { 0 };
+			r = sys3(SYS_execve, g_argv[0], nargv, nenv);   /* returns only on failure */
+			break; }
 		case 'P': r = sys3(SYS_setsid, 0, 0, 0); if (r > 0) r = 1; break;
 		case 'Y': { long ts[2] = { o->num / 1000, (o->num % 1000) * 1000000L }; r = sys3(SYS_nanosleep, ts, 0, 0); break; }
 		case 'J': r = sys3(SYS_kill, task_tid[o->num], SIGKILL, 0); break;
@@ -356,8 +372,17 @@ void cmain(long *sp)
 	if ((i64)area < 0 && (i64)area > -4096) sys3(SYS_exit_group, 98, 0, 0);
 	sys3(SYS_munmap, area + NMAPPED * PAGE, PAGE, 0);
 	sys3(SYS_mprotect, area + (NMAPPED + 1) * PAGE, PAGE, 0);
-	targs[0].task = 0; targs[0].thread = 0;
-	run_task(&targs[0]);
+	g_argv = argv;
+	int t0 = 0;
+	targs[0].start = 0;
+	if (argc >= 3) {           /* resumed after an exec: "<task>:<next op>" */
+		const char *r = argv[2];
+		t0 = (int)parse_dec(&r);
+		if (*r == ':') r++;
+		targs[t0].start = (int)parse_dec(&r);
+	}
+	targs[t0].task = t0; targs[t0].thread = 0;
+	run_task(&targs[t0]);
 	sys3(SYS_exit_group, 0, 0, 0);
 }
 
